@@ -11,7 +11,7 @@ def e2e(rng, set_version):
     pr = rwcommon.gen_ok_project(rng)
     pr["variants"] = True          # implicit self pattern, non-normalised file keys (see projgen.gen_project)
     case = {"vp": pr["vp"], "old": pr["old"], "new": pr["new"], "files": pr["files"], "file_patterns": pr["file_patterns"],
-            "implicit_self": pr["implicit_self"], "key_alias": pr["key_alias"],
+            "implicit_self": pr["implicit_self"], "key_alias": pr["key_alias"], "glob_self": pr["glob_self"],
             "set_version": set_version, "date": pr["date"], "flags": pr["flags"]}
     with rwcommon.setup(pr) as p:
         before = p.snapshot()
